@@ -1,5 +1,7 @@
 package system
 
+import "time"
+
 // datePrecision enumerates date precision constants.
 type datePrecision int
 
@@ -83,4 +85,15 @@ var dateTimeMap = map[layout]dateTimePrecision{
 	dtDayLayout:           dtDay,
 	dtMonthLayout:         dtMonth,
 	dtYearLayout:          dtYear,
+}
+
+// truncateToLayout drops the sub-second part of a duration for layouts that
+// have second precision without a fraction, so that an amount below the
+// precision of the value cannot change it.
+func truncateToLayout(l layout, d time.Duration) time.Duration {
+	switch l {
+	case secondLayout, dtSecondLayout, dtSecondLayoutTZ:
+		return d.Truncate(time.Second)
+	}
+	return d
 }
